@@ -13,6 +13,7 @@
 package main
 
 import (
+	"encoding/json"
 	"fmt"
 	"os"
 	"os/exec"
@@ -322,6 +323,45 @@ func family(fam string, S int, th bool) []*scenario {
 		out = append(out, &scenario{Store: "mem", Pubs: two, Cons: both, Rems: []target{{Obj: "/a", Ver: 1, Seg: 2}}})
 		// both fail
 		out = append(out, &scenario{Store: "mem", Pubs: two, Cons: both, Rems: []target{{Obj: "/a", Ver: 1, Seg: 0}, {Obj: "/b", Ver: 1, Seg: 0}}})
+	case "lat", "latS", "latT": // latS: a subset (each kind of scenario once, the two round-trip times alternating) for the larger deviation bound; latT: six of them for the largest
+		// latency: networks with a round-trip time of 50 ms and of 300 ms (0 = every other family).
+		// Interests are sent at different virtual times (metadata, first segment, window refills
+		// after the 10th segment), expire at their own lifetimes, and nothing may expire while the
+		// network still carries the packet - unless the explorer loses or delays it.
+		for ri, rtt := range []time.Duration{50 * time.Millisecond, rttMax} {
+			with := func(sc *scenario) *scenario { sc.RTT = rtt; return sc }
+			nth := 0
+			latT := [2]map[int]bool{{2: true, 8: true, 10: true}, {3: true, 7: true, 11: true}}
+			add := func(sc *scenario) { // latS keeps every second scenario, offset by the round-trip time
+				if nth++; fam == "lat" || (fam == "latS" && nth%2 == ri) || (fam == "latT" && latT[ri][nth]) {
+					out = append(out, with(sc))
+				}
+			}
+			for _, n := range []int{1, 2, 3, 11, 12} {
+				if !scaled && n > 3 && !th {
+					nth++ // (keeps the numbering of the scenarios that follow)
+					continue
+				}
+				add(one("mem", segs(n), nil))
+			}
+			add(one("bolt", segs(3), nil))
+			byName := con{Obj: "/a", Ver: noVer}
+			two := []pub{{Obj: "/a", Ver: 1, L: 2*S + 1}, {Obj: "/a", Ver: 2, L: S + 2}}
+			// two versions; the version asked for explicitly (no metadata exchange)
+			add(&scenario{Store: "mem", Pubs: two, Cons: []con{byName}})
+			add(&scenario{Store: "mem", Pubs: two, Cons: []con{{Obj: "/a", Ver: 1}}})
+			// two concurrent fetches; one of them loses a segment for good (timeouts move the clock
+			// by seconds while the other fetch has packets in flight)
+			duo := []pub{{Obj: "/a", Ver: 1, L: 2*S + 1}, {Obj: "/b", Ver: 1, L: S + 1}}
+			both := []con{{Obj: "/a", Ver: noVer}, {Obj: "/b", Ver: noVer}}
+			add(&scenario{Store: "mem", Pubs: duo, Cons: both})
+			add(&scenario{Store: "mem", Pubs: duo, Cons: both, Rems: []target{{Obj: "/a", Ver: 1, Seg: 1}}})
+			// nothing published: the metadata Interest runs through its whole retry budget
+			add(&scenario{Store: "mem", Cons: []con{byName}})
+			// the same client fetches again after a fetch that failed by timeouts
+			add(&scenario{Store: "mem", Window: 2, Pubs: []pub{{Obj: "/a", Ver: 1, L: 2*S + 1}, {Obj: "/b", Ver: 1, L: 2*S + 1}}, Rems: []target{{Obj: "/a", Ver: 1, Seg: 2}},
+				Seq: seq(byName, con{Obj: "/b", Ver: noVer})})
+		}
 	case "slack":
 		// the enc.Name handed to Produce / Consume has spare capacity (as names built with append or
 		// decoded from packets have)
@@ -345,6 +385,12 @@ func build(cfg string) explore.System {
 	}
 	S := object.VerifSegmentSize()
 	s := &sys{maxDev: k, seg: S, cfgName: cfg}
+	// face failures are explored in the scenario-rich families; the schedule families (sched*, hist,
+	// fifo, perm: one object, one consumer, every length) keep their bound for delivery orders
+	switch fam {
+	case "ver", "rem", "dual", "slack", "lat", "latS", "latT", "reuseS", "cache":
+		s.faceOps = true
+	}
 	s.scen = family(fam, S, thoroughTier())
 	s.index()
 	return s
@@ -380,27 +426,31 @@ func configs(th bool) []explore.Config {
 
 func allConfigs(th bool) []explore.Config {
 	if object.VerifSegmentSize() >= 100 { // real segment size (child build)
-		c := []explore.Config{cfg("ver", 0), cfg("rem", 0), cfg("reuse", 0), cfg("vbound", 0), cfg("cache", 0), cfg("perm", -1), cfg("fifo", 0), cfg("sched1", 1), cfg("sched2", 2)}
+		c := []explore.Config{cfg("ver", 0), cfg("rem", 0), cfg("reuse", 0), cfg("vbound", 0), cfg("cache", 0), cfg("lat", 0), cfg("latS", 1), cfg("perm", -1), cfg("fifo", 0), cfg("sched1", 1), cfg("sched2", 2)}
 		return c
 	}
 	// the k=0 runs come first so that a defect visible on the default schedule is reported with
 	// that (shortest) history
-	c := []explore.Config{cfg("ver", 0), cfg("rem", 0), cfg("dual", 0), cfg("slack", 0), cfg("reuse", 0), cfg("vbound", 0), cfg("cache", 0), cfg("cache", 1), cfg("reuseS", 1),
-		cfg("ver", 1), cfg("rem", 1), cfg("dual", 1), cfg("slack", 1), cfg("perm", -1), cfg("fifo", 0), cfg("sched1", 1), cfg("sched2", 2), histCfg(2)}
+	c := []explore.Config{cfg("ver", 0), cfg("rem", 0), cfg("dual", 0), cfg("slack", 0), cfg("reuse", 0), cfg("vbound", 0), cfg("cache", 0), cfg("lat", 0), cfg("cache", 1), cfg("reuseS", 1),
+		cfg("ver", 1), cfg("rem", 1), cfg("dual", 1), cfg("slack", 1), cfg("latS", 1), cfg("perm", -1), cfg("fifo", 0), cfg("sched1", 1), cfg("sched2", 2), histCfg(2)}
 	if th {
-		c = []explore.Config{cfg("ver", 0), cfg("rem", 0), cfg("dual", 0), cfg("slack", 0), cfg("reuse", 0), cfg("vbound", 0), cfg("cache", 0), cfg("cache", 2), cfg("reuseS", 2),
-			cfg("ver", 2), cfg("rem", 2), cfg("dual", 2), cfg("slack", 2), cfg("perm", -1), cfg("tiny", -1), cfg("fifo", 0),
+		c = []explore.Config{cfg("ver", 0), cfg("rem", 0), cfg("dual", 0), cfg("slack", 0), cfg("reuse", 0), cfg("vbound", 0), cfg("cache", 0), cfg("lat", 0), cfg("cache", 2), cfg("reuseS", 2),
+			cfg("ver", 2), cfg("rem", 2), cfg("dual", 2), cfg("slack", 2), cfg("lat", 1), cfg("latT", 2), cfg("perm", -1), cfg("tiny", -1), cfg("fifo", 0),
 			cfg("sched1", 1), histCfg(3), cfg("sched3", 3), cfg("sched2", 2)}
 	}
 	return c
 }
 
-const rule = "two real object.Client instances on a harness ndn.Engine; per scenario (store, publications with content length/buffer split/version, removals, consumers) every history that departs at most k times from the default schedule (client select arms in source order, FIFO delivery, timeouts only for lost Interests) is run to completion; deviations: another ready select arm, out-of-order delivery, packet loss, early/late timeout, a fatal per-Interest result (Nack, engine error) for a metadata or segment Interest, removal during the fetch; family perm explores every delivery order with no bound; a case is non-trivial when it fetched an object of >=2 segments"
+const rule = "two real object.Client instances on a harness ndn.Engine; per scenario (store, publications with content length/buffer split/version, removals, consumers) every history that departs at most k times from the default schedule (client select arms in source order, FIFO delivery, timeouts only for lost Interests) is run to completion; deviations: another ready select arm, out-of-order delivery, packet loss, early/late timeout, a fatal per-Interest result (Nack, engine error) for a metadata or segment Interest, the consumer's face going down / coming back before an Interest is expressed (families ver, rem, dual, slack, lat, latS, latT, reuseS, cache), removal during the fetch; network events carry virtual times (arrival = send time + the scenario's round-trip time, expiry = send time + lifetime + 10 ms) and happen in an order consistent with them; families lat/latS/latT run networks with a round-trip time of 50 ms and 300 ms; every wire the producer's store hands out is kept and re-compared after every later store transaction and after four more at the end of the history; family perm explores every delivery order with no bound; a case is non-trivial when it fetched an object of >=2 segments"
 
 var assumptions = []string{
 	"the select in Client.run() is replaced by hook VerifStep (one arm per call, same arm bodies); the engine callbacks only perform channel sends, so arm-granular interleaving covers the goroutine interleavings of the production client",
 	"the harness network remembers (name, nonce) of every Interest it carried and silently drops an Interest repeating one or carrying no nonce (as a forwarder's dead nonce list does); such drops do not count as losses for the retry budget",
 	"harness engine = pending-Interest table with name/CanBePrefix matching like engine/basic (a Data satisfies every matching pending Interest; a timed-out Interest no longer receives Data); no cache, no forwarder; signatures are not validated",
+	"latency model: RTT <= 300 ms. Every expressed Interest carries its send time and lifetime; its timeout is enabled only at send time + lifetime + 10 ms (engine/basic TimeoutMargin; default lifetime 4 s), the Data for it arrives at send time + RTT at the earliest, with RTT fixed per scenario: 0 (all families but lat/latS/latT), 50 ms, 300 ms; an event is enabled only while no pending Interest expires before it, executing it moves the virtual clock to its time; the client reacts in zero time. A timeout that hits an Interest whose packet the network has NOT lost, sooner than 300 ms after it was sent, is not a loss: a fetch that fails on such timeouts alone violates C15.budget. A packet the explorer delays beyond its Interest's lifetime (> 300 ms) counts as lost",
+	"face fault: while the consumer's face is down the harness engine does what engine/basic.Engine.Express does on a failed face.Send: the pending-Interest entry exists and times out later, Express returns the error (Client.expressRImpl then reports InterestResultError through the callback); such an error makes an error completion legal (C15.budget), completion must still be reported exactly once (C15.once)",
+	"aliasing: the harness copies nothing between the two clients, so the consumer parses the very bytes the producer's store returned; the reference model keeps private copies. Each BoltStore instance runs on a new database file (one page layout per history, identical in workers and replays), on /dev/shm when present (bbolt syncs twice when it creates a file, whatever NoSync says)",
+	"a worker process that dies (Go fatal error) is not a CHECK-ERROR: the harness relays the explorer's requests to an inner worker; a death that recurs in 3 of 3 fresh processes and is localised to one operation (one probe process per operation, 3 of 3) is reported as C15.panic with the history as replay; a death that does not recur stays CHECK-ERROR. Memory faults at non-nil addresses are turned into panics (debug.SetPanicOnFault) in the goroutine running the code under test",
 	"scaled model: pSegmentSize overridden to 4 at check time (cmd/xform -const) with content lengths 1..45 (1..12 segments, crossing the fetch window of 10); the real constant 8000 is exercised by a second build with lengths 1, 7999, 8000, 8001, 15999, 16000, 16001, 24001 (thorough: 88001)",
 	"content bytes are a position-dependent hash so that swapped, duplicated, dropped or shifted segments change the byte stream",
 	"error completion is accepted only if some Interest name of that fetch timed out more than Retries(3) times or received a Nack / engine error (final, never retried); a packet absent from the store (never published or removed) makes its Interests time out",
@@ -417,23 +467,41 @@ func main() {
 		pprof.StartCPUProfile(f)
 		rep := report.New("C15", "model_checking")
 		t0 := time.Now()
+		if os.Getenv("C15_STOREBENCH") == "alias" { // the alias-stability pass alone
+			tmpBase()
+			boltDir()
+			cov := runAliasStability(rep, time.Now().Add(60*time.Second))
+			fmt.Println(cov, time.Since(t0), "violations:", rep.Count())
+			rep.FinishNoExit(report.Coverage{"states": 0, "transitions": 0, "traces_validated_against_impl": 0, "samples": []string{"dev"}, "alias": cov}, nil)
+			removeTmp()
+			return
+		}
 		cov := runStores(rep, false, time.Now().Add(8*time.Second))
 		pprof.StopCPUProfile()
 		fmt.Println(cov["histories_done"], time.Since(t0), rep.Count())
-		os.RemoveAll(tmpBase())
+		removeTmp()
 		return
 	}
 	if spinTest {
 		spinTestMain()
 		return
 	}
+	if p := os.Getenv("C15_PROBE"); p != "" { // crash.go: one operation in a throw-away process
+		probeMain(p)
+		return
+	}
+	if _, ok := explore.IsWorker(); ok && os.Getenv("C15_INNER") == "" && os.Getenv("C15_NORELAY") == "" {
+		relayMain() // crash.go: the explorer's worker forwards to an inner worker whose death it survives
+		return
+	}
 	if _, ok := explore.IsWorker(); !ok {
 		removeStaleTmp()
-		base := tmpBase()
-		defer os.RemoveAll(base)
+		tmpBase()
+		boltDir() // both exported to the environment here, so that workers and children share them
+		defer removeTmp()
 		if os.Getenv("C15_CHILD") == "real" {
 			childMain()
-			os.RemoveAll(base)
+			removeTmp()
 			return
 		}
 		if S := object.VerifSegmentSize(); S != 4 && os.Getenv("C15_CHILD") == "" {
@@ -441,17 +509,26 @@ func main() {
 		}
 		if len(os.Args) >= 3 && os.Args[1] == "--replay" {
 			if code, handled := replaySpecial(os.Args[2]); handled {
-				os.RemoveAll(base)
+				removeTmp()
 				os.Exit(code)
 			}
 			if os.Getenv("C15_REPLAY_INNER") == "" {
 				// explore.Main exits the process: run it in a child so that the temp dir is removed
 				cmd := exec.Command(os.Args[0], os.Args[1:]...)
 				cmd.Env = append(os.Environ(), "C15_REPLAY_INNER=1")
-				cmd.Stdout, cmd.Stderr = os.Stdout, os.Stderr
+				se := &tailBuf{}
+				cmd.Stdout, cmd.Stderr = os.Stdout, se
 				err := cmd.Run()
-				os.RemoveAll(base)
+				removeTmp()
 				if ee, ok := err.(*exec.ExitError); ok {
+					// a counterexample whose violation IS the death of the process (crash.go) kills the
+					// replaying process as well: that is the reproduction
+					if out := se.String(); ee.ExitCode() != 1 && (strings.Contains(out, "fatal error: ") || strings.Contains(out, "\ngoroutine ")) && replayClause(os.Args[2]) == "C15.panic" {
+						what, frames := crashSignature(out)
+						fmt.Printf("replayed: the replaying process died: %s @ %s\nVIOLATION property=C15 replay=%s\n", what, frames, os.Args[2])
+						os.Exit(1)
+					}
+					os.Stderr.WriteString(se.String())
 					os.Exit(ee.ExitCode())
 				} else if err != nil {
 					report.Fatal("%v", err)
@@ -480,7 +557,7 @@ func main() {
 			if os.Getenv("C15_ONLY") != "" {
 				cov["exhaustive"] = false
 				cov["partial_run"] = "C15_ONLY=" + os.Getenv("C15_ONLY")
-				os.RemoveAll(tmpBase())
+				removeTmp()
 				return
 			}
 			th := rep.Thorough()
@@ -488,12 +565,27 @@ func main() {
 			if th {
 				d = 12 * time.Minute
 			}
+			t0 := time.Now()
+			lap := func(what string) {
+				fmt.Printf("pass   %-28s %.1fs\n", what, time.Since(t0).Seconds())
+				t0 = time.Now()
+			}
 			cov["store_differential"] = runStores(rep, th, time.Now().Add(d))
+			lap("store_differential")
+			cov["store_alias_stability"] = runAliasStability(rep, time.Now().Add(d))
+			lap("store_alias_stability")
 			cov["large_prefix_remove"] = runBigRemove(rep)
+			lap("large_prefix_remove")
 			cov["real_segment_size"] = runChild(rep, th)
+			lap("real_segment_size (child)")
 			ex, _ := cov["exhaustive"].(bool)
 			if sd, ok := cov["store_differential"].(map[string]any); ok {
 				if e, _ := sd["exhaustive"].(bool); !e {
+					ex = false
+				}
+			}
+			if sa, ok := cov["store_alias_stability"].(map[string]any); ok {
+				if e, _ := sa["exhaustive"].(bool); !e {
 					ex = false
 				}
 			}
@@ -504,17 +596,39 @@ func main() {
 			}
 			cov["exhaustive"] = ex
 			cov["scaled_segment_size"] = object.VerifSegmentSize()
-			os.RemoveAll(tmpBase())
+			cov["latency_model"] = map[string]any{"rtt_ms_per_scenario": []int{0, 50, 300}, "assumed_rtt_bound_ms": int(rttMax / time.Millisecond),
+				"timeout_margin_ms": int(timeoutMargin / time.Millisecond), "default_lifetime_ms": int(defaultInterestLife / time.Millisecond),
+				"configs_with_rtt_above_0": []string{"lat", "latS", "latT"}, "lat_scenarios": len(family("lat", object.VerifSegmentSize(), th)), "latS_scenarios": len(family("latS", object.VerifSegmentSize(), th))}
+			cov["face_fault_configs"] = []string{"ver", "rem", "dual", "slack", "lat", "latS", "latT", "reuseS", "cache"}
+			cov["store_wires_held"] = "every Get answer taken by the harness and every reply of the producer's handler, in every configuration; re-compared after each later Produce/Remove and after 4 extra transactions at the end of each finished history"
+			removeTmp()
 		},
 	})
 }
 
 // removeStaleTmp deletes /tmp/verif-c15-<pid> directories whose owning process no longer exists
 // (a run that was killed or aborted with CHECK-ERROR cannot clean up after itself).
+func replayClause(path string) string {
+	var f struct {
+		Clause string `json:"clause"`
+	}
+	b, _ := os.ReadFile(path)
+	json.Unmarshal(b, &f)
+	return f.Clause
+}
+
+func removeTmp() {
+	if d := boltDir(); d != tmpBase() {
+		os.RemoveAll(d)
+	}
+	os.RemoveAll(tmpBase())
+}
+
 func removeStaleTmp() {
 	dirs, _ := filepath.Glob("/tmp/verif-c15-*")
-	for _, d := range dirs {
-		pid, err := strconv.Atoi(strings.TrimPrefix(d, "/tmp/verif-c15-"))
+	more, _ := filepath.Glob("/dev/shm/verif-c15-*")
+	for _, d := range append(dirs, more...) {
+		pid, err := strconv.Atoi(strings.TrimPrefix(filepath.Base(d), "verif-c15-"))
 		if err != nil || pid <= 0 {
 			continue
 		}
